@@ -221,6 +221,56 @@ def line_of(spec):
     return '(drange run %d %d %s)' % (dt2us(spec['t0']), dt2us(spec['t1']), enc_bump(spec['bump']))
 
 
+# ---- endpoints as other python objects denoting the same instant (round k3; reviews4 v3 §C10.2-3, open since r3): `date_range` resolves
+# them with dt(t).  kinds valid for any instant / for midnight only
+KINDS_ANY = ['dt', 'ts', 'np', 'iso']
+KINDS_MIDNIGHT = ['date', 'npD', 'ymd', 'isod']
+
+
+def as_kind(kind, t):
+    import pandas as pd
+    if kind == 'dt':
+        return t
+    if kind == 'ts':
+        return pd.Timestamp(t)
+    if kind == 'np':
+        return np.datetime64(t, 'us')
+    if kind == 'iso':
+        return t.isoformat(' ')
+    assert t == D(t.year, t.month, t.day), 'midnight only'
+    if kind == 'date':
+        return t.date()
+    if kind == 'npD':
+        return np.datetime64(t.date(), 'D')
+    if kind == 'ymd':
+        return t.year * 10000 + t.month * 100 + t.day
+    if kind == 'isod':
+        return t.strftime('%Y-%m-%d')
+    raise ValueError(kind)
+
+
+def as_datetime(t):
+    """an element of the result as a datetime (a pd.Timestamp start yields Timestamps; pandas cannot subtract year 1)"""
+    return t.to_pydatetime() if hasattr(t, 'to_pydatetime') else t
+
+
+def respell_endpoints(rng, spec, line):
+    """now and then the same call with the endpoints given as date / Timestamp / np.datetime64 / ISO string / yyyymmdd int and a timedelta bump as
+    pd.Timedelta; the years stay in pandas' nanosecond range for Timestamps"""
+    if not line.startswith('(drange run ') or not (1700 < spec['t0'].year < 2250 and 1700 < spec['t1'].year < 2250):
+        return None
+    ks = []
+    for t in (spec['t0'], spec['t1']):
+        mid = t == D(t.year, t.month, t.day)
+        ks.append(rng.choice(KINDS_ANY + (KINDS_MIDNIGHT * 2 if mid else [])))
+    if ks == ['dt', 'dt']:
+        ks[rng.randrange(2)] = 'ts'
+    b = enc_bump(spec['bump'])
+    if b.startswith('(td ') and rng.random() < 0.5:
+        b = '(tdpd ' + b[4:]
+    return '(drange runas %s %s %d %d %s)' % (ks[0], ks[1], dt2us(spec['t0']), dt2us(spec['t1']), b)
+
+
 def generate(rng, tier):
     n = 4000 if tier == 'quick' else 250000
     # dt_bump self-test of the local model (every unit letter, both signs, compounds)
@@ -236,6 +286,10 @@ def generate(rng, tier):
     for _ in range(n):
         spec = rand_spec(rng)
         yield dict(tag=spec['kind'], lines=[line_of(spec)])
+        if rng.random() < 0.12:
+            ln = respell_endpoints(rng, spec, line_of(spec))
+            if ln is not None:
+                yield dict(tag=spec['kind'] + '/objects', lines=[ln])
     # Calendar.drange with a bump that does not end in 'b' is plain drange
     for _ in range(n // 20):
         spec = rand_spec(rng)
@@ -262,6 +316,9 @@ def dec_bump(x):
         return getattr(np, x[1])(int(x[2]))
     if x[0] == 'td':
         return TD(microseconds=int(x[1]))
+    if x[0] == 'tdpd':
+        import pandas as pd
+        return pd.Timedelta(microseconds=int(x[1]))
     return unhex(x[1])
 
 
@@ -280,6 +337,12 @@ def run_line(state, sx):
         res2 = pyg_base.drange(us2dt(int(args[0])), us2dt(int(args[1])), dec_bump(args[2]))
         out2 = 'ok (L' + ''.join(' T:%d' % dt2us(t) if isinstance(t, datetime.datetime) else ' S:%s' % proto.hexs(str(t)) for t in res2) + ')'
         return out if out2 == out else 'again ' + out2[3:]
+    if op == 'runas':
+        t0, t1 = as_kind(args[0], us2dt(int(args[2]))), as_kind(args[1], us2dt(int(args[3])))
+        res = pyg_base.drange(t0, t1, dec_bump(args[4]))
+        if not isinstance(res, list):
+            raise proto.Unencodable('drange returned %r' % type(res))
+        return 'ok (L' + ''.join(' T:%d' % dt2us(as_datetime(t)) for t in res) + ')'
     if op == 'crun':
         from pyg_base._drange import Calendar
         cal = state.get('cal') or state.setdefault('cal', Calendar(None, t0=D(2000, 1, 1), t1=D(2001, 1, 1)))
@@ -306,7 +369,7 @@ def compare(case, i, line, ir, mr):
 
 
 def nontrivial(line, reply):
-    if not (line.startswith('(drange run') or line.startswith('(drange crun')):
+    if not (line.startswith('(drange run') or line.startswith('(drange crun')):     # 'runas' included
         return False
     return reply == 'err ValueError' or (reply.startswith('ok') and reply.count('T:') >= 2)
 
